@@ -11,11 +11,18 @@ import SqiModel.Intbig
 namespace SqiModel.NumberTheory
 open SqiModel.Intbig
 
+/-- floor square root, bit by bit (structural recursion, kernel-reducible); stands for `mpz_sqrt` -/
+def isqrtBits : Nat → Nat → Nat → Nat
+  | 0, _, r => r
+  | k + 1, n, r => if (r + 2 ^ k) * (r + 2 ^ k) ≤ n then isqrtBits k n (r + 2 ^ k) else isqrtBits k n r
+
+def isqrt (n : Nat) : Nat := isqrtBits (n.log2 / 2 + 1) n 0
+
 /-- `ibz_sqrt`: exact integer square root of a perfect square (returns 0/`fail` otherwise, also for a < 0) -/
 def ibzSqrt (a : Int) : Res Int :=
   if a < 0 then .fail
   else
-    let s := Nat.sqrt a.toNat
+    let s := isqrt a.toNat
     if s * s = a.toNat then .ok (s : Int) else .fail
 
 /-- the Euclidean descent `while (prod >= bound) { r0 = r2 tmod r1; prod = r0²; r2 = r1; r1 = r0; }`,
@@ -139,12 +146,14 @@ def applyPrimes : List Int → List Nat → Int × Int → Res (Int × Int)
     else applyPrimes ps vs xy
   | _, _, xy => .ok xy
 
+/-- `if (bad_primes_prod != NULL) { gcd(n, bad) != 1 → res = 0 }` -/
+def badPrimesHit (n : Int) : Option Int → Bool
+  | some b => decide ((gcdext n b).1 ≠ 1)
+  | none => false
+
 /-- `ibz_cornacchia_extended(x, y, n, prime_list, len, iters, bad_primes_prod)` : x² + y² = n -/
 def ibzCornacchiaExtended (isPP : Int → Bool) (n : Int) (primes : List Int) (bad : Option Int) : Res (Int × Int) :=
-  let badHit : Bool := match bad with
-    | some b => decide ((gcdext n b).1 ≠ 1)
-    | none => false
-  if badHit then .fail
+  if badPrimesHit n bad then .fail
   else
     match stripPrimes primes true n with
     | .ub => .ub
